@@ -25,7 +25,9 @@ EXPECTED = [
     'put/single/result-is-the-result-of-trashing-that-argument',
     'put/file/failure-is-reported-naming-the-argument',
     'trashcli.put.janitor_tools.info_creator.TrashInfoCreator.make_trashinfo_data/nothrow',
-    'put/attempt/cover-end',
+    'put/attempt/no-state-carried-over-to-the-next-argument',
+    'put/file/no-state-carried-over-to-the-next-argument',
+    'put/single/no-state-carried-over-to-the-next-argument',
 ]
 
 
